@@ -19,7 +19,7 @@ for m in sorted(glob.glob('/verif/seeded/%s*/meta.json'%p)):
         d=json.load(open(m)); out.append('- %s || needs: %s'%(str(d.get('summary',''))[:600].replace('\n',' '), str(d.get('needs',''))[:300].replace('\n',' ')))
     except Exception: pass
 open('/tmp/mut/%s-scratch/avoid.txt'%id_,'w').write('\n'.join(out)+'\n')
-t=open('/tmp/mut/PROMPT.txt').read().replace('@ID@',id_).replace('@PROP@',p).replace('@TRIGGER@',trig)
+t=open('/verif/tools/seed_prompt_template.txt').read().replace('@ID@',id_).replace('@PROP@',p).replace('@TRIGGER@',trig)
 open('/tmp/mut/%s-scratch/prompt.txt'%id_,'w').write(t)
 PY
 done
